@@ -69,7 +69,7 @@ def correspond(ctx):
         for enc in ENCS:
             for zip_ in (False, True):
                 for aad in (None, "YWFk"):
-                    if quick and rnd.random() < (0.0 if wrap in ("dir", "A128KW") else 0.75):
+                    if quick and wrap not in G.PBES2 and rnd.random() < (0.0 if wrap in ("dir", "A128KW") else 0.75):
                         continue
                     if wrap in G.PBES2 and ((quick and (zip_ or aad or enc != "A128GCM")) or (not quick and (zip_ or enc not in ("A128GCM", "A256CBC-HS512")))):
                         # PBKDF2 with >= 1000 iterations on the Gallina model costs ~30 s per token
@@ -124,6 +124,42 @@ def correspond(ctx):
         if case.startswith("jwedec") and impl == "ERR" and model.startswith("OK"):
             return ("rfc7516-token-rejected", "jose rejects a JWE that the independent implementation decrypts")
         return None
+    # ---- 1b. PBES2 with the iteration count in each header position (and absent): the count announced in the token is
+    #           the count used -- jose decrypts its own product (the unwrap side reads the merged header; the Gallina decryptor covers one PBES2 token per run in section 1)
+    pb_req, pb_meta = [], []
+    for wrap in G.PBES2:
+        for place in ("protected", "unprotected", "header", "absent"):
+            for p2c in ((1000, 4096) if not quick else (rnd.choice([1000, 1001, 4096]),)):
+                hdr = {"alg": wrap, "enc": "A128GCM"}
+                tm, rcp = {"protected": hdr}, "-"
+                if place == "protected":
+                    hdr["p2c"] = p2c
+                elif place == "unprotected":
+                    tm["unprotected"] = {"p2c": p2c}
+                elif place == "header":
+                    rcp = J({"header": {"p2c": p2c}})
+                key = G.oct_key(rnd, 20)
+                pb_req.append("jweenc\t%s\t%s\t%s\t%s" % (J(tm), rcp, J(key), b"pbes2 placement".hex()))
+                pb_meta.append((wrap, place, p2c, key))
+    pb_out = G.harness(bdir, pb_req)
+    pb_dec = []
+    for r_, o, (wrap, place, p2c, key) in zip(pb_req, pb_out, pb_meta):
+        if o == "ERR" or o.startswith("CRASH"):
+            rep.violation("enc-failed:%s:p2c-%s" % (wrap, place), "jose_jwe_enc failed for %s with p2c %s: %s" % (wrap, place, o[:80]), {"case": r_})
+            continue
+        tok = json.loads(o)
+        merged = dict(tok.get("header") or {})
+        merged.update(tok.get("unprotected") or {})
+        merged.update(json.loads(G.unb64(tok["protected"])))
+        ann = merged.get("p2c")
+        if place != "absent" and ann != p2c:
+            rep.violation("pbes2-count-not-recorded:" + place, "the caller's p2c %d (given in %s) is not the one the token announces (%r)" % (p2c, place, ann), {"case": r_, "implementation": o[:600]})
+        pb_dec.append(("jwedec\t%s\t-\t%s" % (o, J(key)), r_, wrap, place))
+    for (c_, r_, wrap, place), o in zip(pb_dec, G.harness(bdir, [x[0] for x in pb_dec])):
+        if o != "OK " + b"pbes2 placement".hex():
+            rep.violation("roundtrip-failed:pbes2-p2c-" + place, "jose cannot decrypt its own %s token when p2c is given in %s: %s" % (wrap, place, o[:60]), {"case": r_, "decrypt": c_[:3000]})
+    dist["PBES2 tokens with p2c in protected / shared / per-recipient header / absent"] = len(pb_req)
+
     # ---- 2. bit-identity: re-encrypt on the model with jose's CEK and IV (no zip), compare ciphertext and tag
     menc_cases = []
     for tok, (wrap, enc, zip_, aad, key, pt) in toks:
